@@ -57,14 +57,6 @@ TEXT ·c15tramp(SB), $32-16
 // func c15leaf()
 TEXT ·c15leaf(SB), NOSPLIT|NOFRAME, $0-0
 	RET
-
-// func c15fnaddr(i int) uintptr
-TEXT ·c15fnaddr(SB), NOSPLIT, $0-16
-	MOVQ i+0(FP), BX
-	LEAQ c15tab<>(SB), AX
-	MOVQ (AX)(BX*8), AX
-	MOVQ AX, ret+8(FP)
-	RET
 `
 
 // c15MainGo calls every function of the table twice (the first call may grow
@@ -77,6 +69,7 @@ import (
 	"os"
 	"runtime"
 	"runtime/debug"
+	"strconv"
 )
 
 func c15tramp(fn uintptr, out *[2]uintptr)
@@ -98,7 +91,11 @@ func main() {
 	c15grow(64) // pre-grow the stack: 64 KiB
 	n := %d
 	w := os.Stdout
-	for i := 0; i < n; i++ {
+	start := 0
+	if len(os.Args) > 1 {
+		start, _ = strconv.Atoi(os.Args[1])
+	}
+	for i := start; i < n; i++ {
 		var out [2]uintptr
 		for k := 0; k < 2; k++ {
 			c15tramp(c15fnaddr(i), &out)
@@ -115,6 +112,8 @@ func c15TableAsm(names []string) string {
 		fmt.Fprintf(&b, "DATA c15tab<>+%d(SB)/8, $·%s(SB)\n", 8*i, n)
 	}
 	fmt.Fprintf(&b, "GLOBL c15tab<>(SB), RODATA|NOPTR, $%d\n", 8*len(names))
+	// the table symbol is file-local (<>): its reader lives in the same file
+	b.WriteString("\n// func c15fnaddr(i int) uintptr\nTEXT ·c15fnaddr(SB), NOSPLIT, $0-16\n\tMOVQ i+0(FP), BX\n\tLEAQ c15tab<>(SB), AX\n\tMOVQ (AX)(BX*8), AX\n\tMOVQ AX, ret+8(FP)\n\tRET\n")
 	return b.String()
 }
 
@@ -156,14 +155,14 @@ func c15Build(dir string) (string, error) {
 }
 
 // c15Run executes the built program in a child process and parses `i before after` lines.
-func c15Run(dir string) (map[int][2]uint64, string, error) {
+func c15Run(dir string, args ...string) (map[int][2]uint64, string, error) {
 	abs, err := filepath.Abs(dir)
 	if err != nil {
 		return nil, "", err
 	}
 	ctx, cancel := context.WithTimeout(context.Background(), 60*time.Second)
 	defer cancel()
-	cmd := exec.CommandContext(ctx, filepath.Join(abs, "c15run.bin"))
+	cmd := exec.CommandContext(ctx, filepath.Join(abs, "c15run.bin"), args...)
 	cmd.Dir = abs
 	cmd.Env = append(os.Environ(), "GODEBUG=asyncpreemptoff=1", "GOMAXPROCS=1", "GOTRACEBACK=none")
 	var so, se bytes.Buffer
@@ -182,10 +181,10 @@ func c15Run(dir string) (map[int][2]uint64, string, error) {
 			res[i] = [2]uint64{a, b}
 		}
 	}
-	return res, firstLineC15(se.String()), rerr
+	return res, c15FirstLine(se.String()), rerr
 }
 
-func firstLineC15(s string) string {
+func c15FirstLine(s string) string {
 	s = strings.TrimSpace(s)
 	if i := strings.IndexByte(s, '\n'); i >= 0 {
 		s = s[:i]
@@ -241,7 +240,7 @@ func c15MeasureCase(dir string, row *c15GridRow, touchBP bool) error {
 	}
 	if out, err := c15Build(dir); err != nil {
 		row.Accepted = false
-		row.Note = "toolchain rejects: " + firstLineC15(strings.ReplaceAll(out, "# c15run\n", ""))
+		row.Note = "toolchain rejects: " + c15FirstLine(strings.ReplaceAll(out, "# c15run\n", ""))
 		return nil
 	}
 	row.Accepted = true
